@@ -314,6 +314,10 @@ def desugar_adaptors(facts, body, blocks, locals_, depth, stack, t1=True):
                 stages.append((cc['name'], clo))
                 src = ct['args'][0]
                 continue
+            if cc.get('name') in ('copied', 'cloned') and (cc.get('trait') or '').endswith('iter::Iterator') and len(ct['args']) == 1:
+                stages.append(('ident', None))   # item-preserving adaptor (copies are transparent for provenance)
+                src = ct['args'][0]
+                continue
             if cc.get('name') == 'into_iter' and is_extend and len(ct['args']) == 1:
                 src = ct['args'][0]
                 continue
@@ -324,15 +328,16 @@ def desugar_adaptors(facts, body, blocks, locals_, depth, stack, t1=True):
             cons_clo = _closure_of(facts, blocks, t['args'][-1])
             if cons_clo is None:
                 continue
-        if cons_clo is None and not stages:
+        if cons_clo is None and not [x for x in stages if x[1] is not None]:
             continue
-        if any(cb.uid in stack for _, (_, cb) in stages) or (cons_clo and cons_clo[1].uid in stack):
+        if any(x[1][1].uid in stack for x in stages if x[1] is not None) or (cons_clo and cons_clo[1].uid in stack):
             continue
         B = _Builder(blocks, locals_, t['span'])
         dest = t['dest']
         target = t['target']
-        for _, (cl, _) in stages:
-            keep_alive.add(cl)
+        for _, x in stages:
+            if x is not None:
+                keep_alive.add(x[0])
         if cons_clo:
             keep_alive.add(cons_clo[0])
         sl = _plain_local(src)
@@ -375,7 +380,10 @@ def desugar_adaptors(facts, body, blocks, locals_, depth, stack, t1=True):
         cur = body0
         cur_item = item
         # ---- stages
-        for sname, (cl, cb) in stages:
+        for sname, x in stages:
+            if x is None:
+                continue
+            cl, cb = x
             cin = inlined(facts, cb, depth + 1, stack + (body.uid,), t1, True)
             env_ref = cin.locals[1]['ty'].get('k') == 'ref'
             env_bind = {'k': 'rv', 'rv': {'k': 'ref', 'mut': bool(cin.locals[1]['ty'].get('mut')), 'place': _pl(cl)}} if env_ref else _cp(cl)
